@@ -285,7 +285,7 @@ def rule_wid2(prog, rep, units, rid='WID2'):
                                       '(the result depends on how deep / long the input is)' % (f.name, nm, k, head.line, w, limit))
 
 
-def rule_wid3(prog, rep, units, rid='WID3'):
+def rule_wid3(prog, rep, units, rid='WID3', quantity=('size',)):
     """A length is not squeezed through a narrower local.  A local variable, parameter or return value of an 8-bit (or 16-bit)
     integer type that receives a wider size value (a size_t / uint16_t expression over a `...size` quantity) silently keeps
     the value modulo 256 (65536): every length with a multiple of that added behaves like a short one.  Accepted only when
@@ -306,7 +306,7 @@ def rule_wid3(prog, rep, units, rid='WID3'):
                     e0 = e0['inner'][0]
                 src_w = width_of(e0)
                 txt = canon(e0)
-                if src_w <= dst_w or 'size' not in txt or isinstance(int_value(e0), int):
+                if src_w <= dst_w or not any(q in txt for q in quantity) or isinstance(int_value(e0), int):
                     return
                 rep.instance(rid)
                 s0 = strip_parens(strip(e0))
